@@ -93,6 +93,9 @@ func genAuthCfg(r *rand.Rand) vfCfg {
 	if chance(r, 0.5) {
 		c.CliTokenLife = pick(r, []string{"1h", "30m", "24h", "36h", "100h"})
 	}
+	if c.CliTokenLife != "" && !containsStr(c.CertBackends, "WebauthForCLI") && chance(r, 0.4) {
+		c.CertBackends = append(c.CertBackends, "WebauthForCLI") // CLI web-auth tokens exist to obtain certificates with
+	}
 	c.GroupsLDAP = chance(r, 0.5)
 	if chance(r, 0.25) {
 		c.DenyKeys = subset(r, []string{"user_p256_1", "user_rsa2048_2", "user_ed25519_3"}, 0.6)
@@ -114,6 +117,13 @@ var vfSessNames = []string{"s1", "s2", "s3"}
 // genAuthPlan: focus is one of C01, C02, C03, C05
 func genAuthPlan(r *rand.Rand, tier, focus string) *vfPlan {
 	p := &vfPlan{Cfg: genAuthCfg(r)}
+	if focus == "C03" && p.Cfg.CliTokenLife != "" && chance(r, 0.4) {
+		// CLI sessions that outlive a day, and are good for certificates
+		p.Cfg.CliTokenLife = pick(r, []string{"36h", "100h"})
+		if !containsStr(p.Cfg.CertBackends, "WebauthForCLI") {
+			p.Cfg.CertBackends = append(p.Cfg.CertBackends, "WebauthForCLI")
+		}
+	}
 	add := func(s vfStep) { p.Steps = append(p.Steps, s) }
 	// enrolments
 	tokN := 0
@@ -156,6 +166,42 @@ func genAuthPlan(r *rand.Rand, tier, focus string) *vfPlan {
 		add(vfStep{Op: "certgen", Sess: "s2", User: u, A: "x509", B: "user_p256_1"})
 		sessUser["s1"], sessUser["s2"] = u, u
 		n = 4 + r.IntN(6)
+	}
+	if focus == "C05" && chance(r, 0.06) {
+		// a one-time code accepted while the primary store is unreachable (profiles come from the cache, nothing can be
+		// saved) is presented again by another session a few seconds later
+		u := pick(r, vfHonestUsers)
+		p.Steps = nil
+		add(vfStep{Op: "setup_totp", User: u})
+		add(vfStep{Op: "advance", D: pick(r, []string{"31s", "61s", "25h"})})
+		add(vfStep{Op: "login", Sess: "s1", User: u})
+		add(vfStep{Op: "login", Sess: "s2", User: u})
+		add(vfStep{Op: "sync"})
+		add(vfStep{Op: "stall"})
+		add(vfStep{Op: "totp", Sess: "s1", A: "cur"})
+		add(vfStep{Op: "advance", D: pick(r, []string{"3s", "3s", "5s", "12s"})})
+		if chance(r, 0.6) {
+			// a mistyped code in between
+			add(vfStep{Op: "totp", Sess: "s2", A: "wrong"})
+			add(vfStep{Op: "advance", D: "3s"})
+		}
+		add(vfStep{Op: "totp", Sess: "s2", A: "used"})
+		add(vfStep{Op: "heal"})
+		add(vfStep{Op: "certgen", Sess: "s2", User: u, A: "x509", B: "user_p256_1"})
+		sessUser["s1"], sessUser["s2"] = u, u
+		n = 3 + r.IntN(5)
+	} else if focus == "C05" && chance(r, 0.06) {
+		// a bootstrap OTP presented around the end of its life: seconds before, seconds after
+		u := pick(r, vfHonestUsers)
+		p.Steps = nil
+		add(vfStep{Op: "setup_bootstrap", User: u, D: pick(r, []string{"5m", "61s", "1h"})})
+		add(vfStep{Op: "login", Sess: "s1", User: u})
+		d := map[string]time.Duration{"5m": 5 * time.Minute, "61s": 61 * time.Second, "1h": time.Hour}[p.Steps[0].D]
+		add(vfStep{Op: "advance", D: (d + time.Duration(pick(r, []int{-20, -2, 2, 20, 45, 59, 75}))*time.Second).String()})
+		add(vfStep{Op: "bootstrapotp", Sess: "s1"})
+		add(vfStep{Op: "certgen", Sess: "s1", User: u, A: "x509", B: "user_p256_1"})
+		sessUser["s1"] = u
+		n = 3 + r.IntN(5)
 	}
 	if focus == "C03" && chance(r, 0.12) {
 		// a client certificate obtained earlier is, hours later, the only credential of a new request
@@ -505,7 +551,7 @@ func genAuthPlan(r *rand.Rand, tier, focus string) *vfPlan {
 				if chance(r, 0.5) {
 					add(vfStep{Op: "certgen", Sess: tgt, User: "@jar", A: pick(r, []string{"ssh", "x509"}), B: pick(r, vfUserKeyNames), D: pick(r, durations)})
 				}
-				if chance(r, 0.3) {
+				if chance(r, 0.3) || (focus == "C03" && chance(r, 0.5)) {
 					// a CLI session lives as long as its token: it may be older than a day when it asks for a certificate
 					add(vfStep{Op: "advance", D: pick(r, []string{"23h", "24h1m", "30h", "50h"})})
 					add(vfStep{Op: "certgen", Sess: tgt, User: "@jar", A: pick(r, []string{"ssh", "x509"}), B: pick(r, vfUserKeyNames), D: pick(r, []string{"", "1h", "24h"})})
